@@ -46,12 +46,33 @@ fn spell(from: &Path, to: &Path, variant: usize) -> String {
             // use a redundant "./" prefix segment instead
             if let Some(r) = rel.strip_prefix("./") { format!("./././{r}") } else { format!("./{rel}") }
         }
-        _ => {
+        2 => {
             // go up to the root and come back down: ../../<abs path without leading slash>
             let depth = from.parent().map(|p| p.components().count() - 1).unwrap_or(0);
             let ups = "../".repeat(depth);
             let abs = to.to_string_lossy();
             if depth == 0 { format!("./{}", &abs[1..]) } else { format!("{ups}{}", &abs[1..]) }
+        }
+        3 => {
+            // bare path (no leading ./): relative to the importing file all the same
+            match rel.strip_prefix("./") {
+                Some(r) => r.to_string(),
+                None => rel,
+            }
+        }
+        4 => {
+            // bare path with an interior detour: zz/../x
+            match rel.strip_prefix("./") {
+                Some(r) => format!("zz/../{r}"),
+                None => format!("zz/../{rel}"),
+            }
+        }
+        _ => {
+            // ./zz/.././x
+            match rel.strip_prefix("./") {
+                Some(r) => format!("./zz/.././{r}"),
+                None => format!("./zz/../{rel}"),
+            }
         }
     }
 }
@@ -446,7 +467,7 @@ fn random_case(case: &mut Case) -> CaseResult {
                     }
                 }
             };
-            let spelling = case.ch.below(3);
+            let spelling = case.ch.below(6);
             // one literal path may not mix wildcard and specific imports (documented error of
             // resolve_operation_extensions), and a second wildcard for the same literal is an error
             let lit_of = |l: &ImportLine| -> String {
@@ -540,7 +561,7 @@ pub fn run(env: &Env) -> i32 {
     let mut rep = Report::new(
         env,
         "exploration",
-        "import graphs: bounded-exhaustive over N=3 files x 2 fragments with per-pair edge alphabet {none, *, {A}, {B}, {A,B}, {Missing}} (no self-imports: 6^6 graphs, every file tried as root; quick and thorough); thorough adds N=3 with self-imports (6^9) and N=4 over {none,*,{A},{A,B}} (4^12); random graphs to N=8 with 0-2 fragments per file, dangling targets, three spellings of each relative path, repeated import lines, permuted import lines (metamorphic). Oracle: reference closure as a set of (file, fragment) with each definition exactly once, own definitions kept; Err iff a reachable import is dangling or names a missing fragment, positioned on a faulty import line. Non-trivial: graph has a cycle, a node with in-degree >= 2 (diamond) or a non-canonical path spelling.",
+        "import graphs: bounded-exhaustive over N=3 files x 2 fragments with per-pair edge alphabet {none, *, {A}, {B}, {A,B}, {Missing}} (no self-imports: 6^6 graphs, every file tried as root; quick and thorough); thorough adds N=3 with self-imports (6^9) and N=4 over {none,*,{A},{A,B}} (4^12); random graphs to N=8 with 0-2 fragments per file, dangling targets, six spellings of each relative path (canonical, redundant ./, via the root, bare, bare with an interior .., ./ with an interior ..), repeated import lines, permuted import lines (metamorphic). Oracle: reference closure as a set of (file, fragment) with each definition exactly once, own definitions kept; Err iff a reachable import is dangling or names a missing fragment, positioned on a faulty import line. Non-trivial: graph has a cycle, a node with in-degree >= 2 (diamond) or a non-canonical path spelling.",
     );
     rep.assume("mixing `*` and named imports for one literal path (a documented error of resolve_operation_extensions) is not generated");
     rep.assume("the definitions of each file are parsed once and shared (cached) across graphs; positions carry the file index");
